@@ -485,6 +485,41 @@ def r1412(db, ctx):
     C09.to_freq_form(db, ctx, 'R14.12', 'lightmotif_io::transfac::Record::to_freq', ('fld', ('down', ('fld', ('p', 1), 'data'), 'Some'), '0'))
 
 
+def r1413(db, ctx):
+    ctx.rule('R14.13', 'blanks around a delimiter token are optional: in the parsers of the I/O crate `delimited(a, token, b)` / `tuple((a, token, b))` never has a mandatory-blank '
+                       'recogniser (space1 / multispace1) as `a` or `b` — "[1 2 3]" and "[ 1 2 3 ]" are the same row')
+    n = nf = 0
+    BL = ('space0', 'space1', 'multispace0', 'multispace1')
+    for f in sorted(db.fns.values(), key=lambda f_: f_.path):
+        if f.crate != 'lightmotif_io' or '::parse::' not in f.path or f.promoted_of:
+            continue
+        nf += 1
+        R = X.Rec(f)
+        for bi, t in f.calls():
+            cs = f.callee_short(t) or ''
+            if cs == 'nom::sequence::delimited' and len(t['args']) == 3:
+                outer = [norm(R.at(bi).operand(t['args'][k_])) for k_ in (0, 2)]
+            elif cs == 'nom::sequence::tuple' and len(t['args']) == 1:
+                tp = norm(R.at(bi).operand(t['args'][0]))
+                if tp[0] != 'agg' or len(tp[2]) != 3:
+                    continue
+                outer = [norm(tp[2][0]), norm(tp[2][2])]
+            else:
+                continue
+            names = [x_[1] if x_[0] == 'fnitem' else None for x_ in outer]
+            if not any(nm_ and nm_.rsplit('::', 1)[-1] in BL for nm_ in names):
+                continue
+            n += 1
+            bad = [nm_ for nm_ in names if nm_ and nm_.rsplit('::', 1)[-1] in ('space1', 'multispace1')]
+            if bad:
+                ctx.fail('R14.13', f, 'blank-delimited token', f'`{cs.rsplit("::", 1)[-1]}` requires at least one blank ({bad[0].rsplit("::", 1)[-1]}) next to the token: a row written without it '
+                         '("[1 2 3]") is rejected, or ends the matrix early', span=t['span'])
+            else:
+                ctx.ok('R14.13', f, 'optional blanks around the token')
+    # the number of sites depends on the spelling (delimited / tuple / sequential calls: the last is not decided); the floor is on the functions looked at
+    ctx.floor('R14.13', nf, 20, 'parse functions of the I/O crate examined')
+
+
 def r147(db, ctx, roots):
     ctx.rule('R14.7', 'each reader has a path returning None taken when the stream reports 0 bytes and nothing non-blank is pending')
     n = 0
@@ -739,6 +774,7 @@ def run(db, ctx):
     r147(db, ctx, roots)
     r1411(db, ctx, roots)
     r1412(db, ctx)
+    r1413(db, ctx)
     r148(db, ctx)
     r149(db, ctx)
     r1410(db, ctx)
